@@ -19,6 +19,8 @@ type Event struct {
 	RecvForm bool
 	Ptr      bool
 	Open     bool // the property statement leaves this shape open: tolerated, never required
+	Elided   bool // the type is not written at the site (elided element literal of a named container)
+	Promoted bool // method reached through an embedded field of the operand's type
 }
 
 // Events lists what the site does, independent of any annotation.
@@ -59,6 +61,19 @@ func (s *Site) Events() []Event {
 	case "lit", "litptr", "elided.slice", "elided.ptrslice", "elided.map":
 		ev = append(ev, Event{Cat: "CTOR", Code: "CTOR01", Type: s.Type})
 		mention("lit")
+	case "lit.nested":
+		// T{In: U{}}: two instantiations on one line
+		ev = append(ev, Event{Cat: "CTOR", Code: "CTOR01", Type: s.Type})
+		mention("lit")
+		ev = append(ev, Event{Cat: "CTOR", Code: "CTOR01", Type: s.Field.Type})
+		ev = append(ev, Event{Cat: "MENTION", Type: s.Field.Type, Mention: "lit"})
+	case "elided.named":
+		ev = append(ev, Event{Cat: "CTOR", Code: "CTOR01", Type: s.Type})
+		ev = append(ev, Event{Cat: "MENTION", Type: s.Type, Mention: "lit", Elided: true})
+	case "typedecl.container":
+		mention("other")
+	case "mcall.promoted":
+		ev = append(ev, Event{Cat: "MCALL", Fn: s.Fn, Promoted: true})
 	case "new":
 		ev = append(ev, Event{Cat: "CTOR", Code: "CTOR02", Type: s.Type})
 		mention("other")
@@ -351,6 +366,40 @@ func SiteDiags(p *Prog, diags []engine.Diag, prefixes ...string) (bySite map[int
 // Compare checks tool output against the expectation for the given code prefixes.
 func Compare(p *Prog, diags []engine.Diag, e *Expect, prefixes ...string) []Mismatch {
 	got, stray := SiteDiags(p, diags, prefixes...)
+	if len(stray) == 0 {
+		key := func(id int, c string) string { return fmt.Sprintf("%d:%s", id, c) }
+		g, m, my := map[string]int{}, map[string]int{}, map[string]bool{}
+		for id, cs := range got {
+			for c, n := range cs {
+				g[key(id, c)] = n
+			}
+		}
+		for id, cs := range e.Must {
+			for c := range cs {
+				n := e.Counts[id][c]
+				if n < 1 {
+					n = 1
+				}
+				m[key(id, c)] = n
+			}
+		}
+		for id, cs := range e.May {
+			for c := range cs {
+				my[key(id, c)] = true
+			}
+		}
+		var grps [][]string
+		for _, grp := range e.OneOf {
+			var ks []string
+			for _, sc := range grp {
+				ks = append(ks, key(sc.Site, sc.Code))
+			}
+			grps = append(grps, ks)
+		}
+		if Feasible(g, m, my, grps) {
+			return nil
+		}
+	}
 	var out []Mismatch
 	where := map[int]string{}
 	p.Walk(func(si SiteInfo) {
@@ -392,6 +441,9 @@ func Compare(p *Prog, diags []engine.Diag, e *Expect, prefixes ...string) []Mism
 	for _, d := range stray {
 		out = append(out, Mismatch{Code: d.Code, Kind: "stray", Where: fmt.Sprintf("%s:%d", d.File, d.Line)})
 	}
+	if len(out) == 0 {
+		out = append(out, Mismatch{Kind: "overlapping once-per-file groups cannot be attributed (unexpected extra or missing report)"})
+	}
 	sort.Slice(out, func(i, j int) bool {
 		if out[i].Site != out[j].Site {
 			return out[i].Site < out[j].Site
@@ -399,6 +451,61 @@ func Compare(p *Prog, diags []engine.Diag, e *Expect, prefixes ...string) []Mism
 		return out[i].Code < out[j].Code
 	})
 	return out
+}
+
+// Feasible reports whether the observed counts can be explained by the
+// expectation: every must key is reported exactly its count, every group
+// contributes exactly one report at one of its keys, and anything left over
+// sits on a may key. Groups may overlap (two once-per-file groups of different
+// types can share a line), so the attribution is searched.
+func Feasible(got, must map[string]int, may map[string]bool, groups [][]string) bool {
+	rem := map[string]int{}
+	for k, n := range got {
+		rem[k] = n
+	}
+	for k, w := range must {
+		if rem[k] < w {
+			return false
+		}
+		rem[k] -= w
+	}
+	inGroup := map[string]bool{}
+	for _, g := range groups {
+		for _, k := range g {
+			inGroup[k] = true
+		}
+	}
+	// leftovers outside the groups are decided already
+	for k, n := range rem {
+		if n > 0 && !may[k] && !inGroup[k] {
+			return false
+		}
+	}
+	var rec func(i int) bool
+	rec = func(i int) bool {
+		if i == len(groups) {
+			for k := range inGroup {
+				if rem[k] > 0 && !may[k] {
+					return false
+				}
+			}
+			return true
+		}
+		seen := map[string]bool{}
+		for _, k := range groups[i] {
+			if seen[k] || rem[k] < 1 {
+				continue
+			}
+			seen[k] = true
+			rem[k]--
+			if rec(i + 1) {
+				return true
+			}
+			rem[k]++
+		}
+		return false
+	}
+	return rec(0)
 }
 
 // ---------------------------------------------------------------------------
@@ -456,7 +563,7 @@ func ExpectTONL(p *Prog, cfg engine.Config) *Expect {
 				if fn.Recv != nil {
 					code = "TONL03"
 				}
-				if evn.Cat == "REF" || evn.Cat == "MREF" || vis == "variant" {
+				if evn.Cat == "REF" || evn.Cat == "MREF" || vis == "variant" || evn.Promoted {
 					e.may(si.Site.ID, code) // function value not called: left open
 					continue
 				}
@@ -482,7 +589,6 @@ func ExpectTONL(p *Prog, cfg engine.Config) *Expect {
 				judged := evn.Mention == "lit" || evn.Mention == "var" || evn.Mention == "field" || evn.Mention == "param" || evn.Mention == "result" || evn.Mention == "embedded"
 				if !judged || vis == "variant" {
 					s.unjudged = append(s.unjudged, si.Site.ID)
-					e.may(si.Site.ID, "TONL01")
 					continue
 				}
 				s.done = true
@@ -498,6 +604,13 @@ func ExpectTONL(p *Prog, cfg engine.Config) *Expect {
 			}
 		}
 	})
+	for _, s := range st {
+		if !s.done {
+			for _, u := range s.unjudged {
+				e.may(u, "TONL01")
+			}
+		}
+	}
 	return e
 }
 
@@ -572,7 +685,8 @@ func ExpectPKGO(p *Prog, cfg engine.Config) *Expect {
 				if seen[k] {
 					continue
 				}
-				if vis == "variant" {
+				// an elided element literal does not name the type: whether it is a "reference" is left open
+				if vis == "variant" || evn.Elided {
 					e.may(si.Site.ID, "PKGO01")
 					continue
 				}
